@@ -355,6 +355,9 @@ func c23DetailsCoq(in c23Details) string {
 		if err != nil {
 			return ""
 		}
+		if c23AmbiguousRepair(secs) {
+			return "" // Go ranges over a map there: the result is not a function of the input
+		}
 		t, ok := c23SecsCoq(secs)
 		if !ok {
 			return ""
@@ -362,6 +365,36 @@ func c23DetailsCoq(in c23Details) string {
 		return t
 	}
 	return c23Recall(in)
+}
+
+// two repair flows of one kind naming the same base ssrc: trackDetailsFromSDP
+// picks "the" repair ssrc by ranging over a map, so either may come out
+func c23AmbiguousRepair(secs []c23Sec) bool {
+	for _, s := range secs {
+		seen := map[string]map[string]bool{}
+		for _, a := range s.Attrs {
+			if a[0] != "ssrc-group" {
+				continue
+			}
+			f := strings.Split(a[1], " ")
+			if len(f) != 3 || (f[0] != "FID" && f[0] != "FEC-FR") {
+				continue
+			}
+			var base, rep uint64
+			if n, _ := fmt.Sscanf(f[1]+" "+f[2], "%d %d", &base, &rep); n != 2 {
+				continue
+			}
+			k := fmt.Sprintf("%s/%d", f[0], base)
+			if seen[k] == nil {
+				seen[k] = map[string]bool{}
+			}
+			seen[k][fmt.Sprint(rep)] = true
+			if len(seen[k]) > 1 {
+				return true
+			}
+		}
+	}
+	return false
 }
 
 var c23IDs = []string{"s", "stream", "webcam-0", "{6f1c}", "a:b", "msid:x", "0", "4294967296", "-", "cname:q", "A_B.C~d", ""}
@@ -881,10 +914,8 @@ func c23MediaRun(in c23Media) (V, Verdict) {
 			fail(Fail("remote-track-payload-type-differs", fmt.Sprintf("track %d: negotiated %d, TrackRemote reports %d/%d", i, wantPT, codec.PayloadType, tr.PayloadType())))
 		case tr.Kind() != def.Kind:
 			fail(Fail("remote-track-kind-differs", fmt.Sprintf("track %d", i)))
-		case !an.msidOK || an.stream != t.StreamID || an.track != t.TrackID:
-			if !c23HasSpace(t.StreamID) && !c23HasSpace(t.TrackID) {
-				fail(Fail("description-msid-differs-from-track", fmt.Sprintf("track %d: ids (%q,%q), a=msid (%q,%q)", i, t.StreamID, t.TrackID, an.stream, an.track)))
-			}
+		case (!an.msidOK || an.stream != t.StreamID || an.track != t.TrackID) && !c23HasSpace(t.StreamID) && !c23HasSpace(t.TrackID):
+			fail(Fail("description-msid-differs-from-track", fmt.Sprintf("track %d: ids (%q,%q), a=msid (%q,%q)", i, t.StreamID, t.TrackID, an.stream, an.track)))
 		case (tr.StreamID() != t.StreamID || tr.ID() != t.TrackID) && (c23HasSpace(t.StreamID) || c23HasSpace(t.TrackID)):
 			fail(Fail("track-or-stream-id-with-space-not-parsed-back",
 				fmt.Sprintf("track %d: ids (%q,%q) reach the remote track as (%q,%q)", i, t.StreamID, t.TrackID, tr.StreamID(), tr.ID())))
@@ -1031,5 +1062,14 @@ func init() {
 		Corpus: c23MediaMatrix,
 		Gen:    func(r *Rand, i int) c23Media { return c23GenMedia(r, i, false) },
 		Run:    c23MediaRun, Coq: c23MediaCoq,
+	})
+	// through the delaying / reordering shim: packets may arrive in another
+	// order, each still intact, once, on the announced SSRC
+	Register(Spec[c23Media]{
+		ID: "C23", Suite: "mediashim", CoqImports: []string{"Check.C23"},
+		CoqType: "Check.C23.media_in", CoqRun: "Check.C23.run_media",
+		Quick: 4, Thorough: 100, Parallel: 8, Timeout: 90 * time.Second,
+		Gen: func(r *Rand, i int) c23Media { return c23GenMedia(r, i, true) },
+		Run: c23MediaRun, Coq: c23MediaCoq,
 	})
 }
